@@ -411,7 +411,7 @@ def oracle_seq(c, o):
             for b in range(isn[3]):
                 for m in range(3):
                     src_traj[(int(isc[o_, a, b]), m)] = it[m][o_, a, b]
-    start = (c['n0'] - c['recon']) // 2 if n0 != c['n0'] else 0
+    start = c['n0'] // 2 - c['recon'] // 2 if n0 != c['n0'] else 0
     dacq = np.array(f['data_acq']).reshape(sh)
     dre = np.array(f['data']).reshape(sh)
     sc = np.array(f['info'][0][1]).reshape(nO, n2, n1)
